@@ -74,13 +74,41 @@ Definition get_or_make_set (st : bstate) (ty : nat) (n0 : oname) : bstate * nat 
           b_phys := reg_insert (b_phys st) ty n sid; b_lfs := b_lfs st |}, sid)
   end.
 
-(* EFLRSetsDict.try_add_set on a logical file's registry *)
-Definition try_add_set (f : lfile) (ty : nat) (n0 : oname) (sid : nat) : lfile :=
+(* a registered set WITHOUT items (left behind by an add_* call that raised) has no position among the sets of the logical
+   file yet: try_add_set drops it from the registry and enters the set anew, so that it takes its position with its first
+   item — as if the rejected call had never been made *)
+Definition set_empty (st : bstate) (sid : nat) : bool := match s_items (set_at st sid) with [] => true | _ => false end.
+Fixpoint dict_remove (d : list (oname * nat)) (n : oname) : list (oname * nat) :=
+  match d with [] => [] | (n', v) :: d' => if oname_eqb n n' then d' else (n', v) :: dict_remove d' n end.
+Fixpoint reg_remove (r : reg) (k : nat) (n : oname) : reg :=
+  match r with
+  | [] => []
+  | (k', d) :: r' => if Nat.eqb k k' then (match dict_remove d n with [] => r' | d' => (k', d') :: r' end)
+                     else (k', d) :: reg_remove r' k n
+  end.
+Definition forget_empty (st : bstate) (r : reg) (k : nat) (n : oname) : reg :=
+  match reg_find r k n with
+  | Some sid => if set_empty st sid then reg_remove r k n else r
+  | None => r
+  end.
+
+(* a set type whose registered sets are all without items has no position either: it is moved to the end *)
+Definition class_all_empty (st : bstate) (d : list (oname * nat)) : bool := forallb (fun ns => set_empty st (snd ns)) d.
+Definition reg_drop_class (r : reg) (k : nat) : reg := filter (fun kd => negb (Nat.eqb k (fst kd))) r.
+Definition reposition_class (st : bstate) (r : reg) (k : nat) : reg :=
+  match reg_lookup r k with
+  | [] => r
+  | d => if class_all_empty st d then reg_drop_class r k ++ [(k, d)] else r
+  end.
+
+(* EFLRSetsDict.try_add_set on a logical file's registry (st: the state in which "holds no items" is judged) *)
+Definition try_add_set (st : bstate) (f : lfile) (ty : nat) (n0 : oname) (sid : nat) : lfile :=
   let n := match n0 with Some [] => None | _ => n0 end in       (* the set's own (normalised) name *)
-  match reg_find (l_reg f) ty n with
+  let r := forget_empty st (l_reg f) ty n in
+  match reg_find r ty n with
   | Some _ => f
   | None => {| l_hid := l_hid f; l_seq := l_seq f; l_ident := l_ident f; l_fh_origin := l_fh_origin f;
-               l_reg := reg_insert (l_reg f) ty n sid; l_nofmt := l_nofmt f; l_data := l_data f |}
+               l_reg := reg_insert (reposition_class st r ty) ty n sid; l_nofmt := l_nofmt f; l_data := l_data f |}
   end.
 
 (* get_all_items_for_set_type on a registry *)
@@ -178,7 +206,7 @@ Definition add_common (hc : bool) (st : bstate) (l : nat) (ty : nat) (name : raw
   | None => (st, Rejected EOther)
   | Some f =>
       let '(st1, sid) := get_or_make_set st ty sn in
-      let f1 := try_add_set f ty sn sid in
+      let f1 := try_add_set st1 f ty sn sid in
       let st2 := set_lf st1 l f1 in
       (* origin_reference or default: a falsy argument (None, 0) means default *)
       let org : res (option Z) :=
@@ -272,7 +300,7 @@ Definition add_origin (hc : bool) (st : bstate) (l : nat) (name : raw) (sn : ona
   | None => (st, Rejected EOther)
   | Some f =>
       let '(st1, sid) := get_or_make_set st T_ORIGIN sn in
-      let f1 := try_add_set f T_ORIGIN sn sid in
+      let f1 := try_add_set st1 f T_ORIGIN sn sid in
       let st2 := set_lf st1 l f1 in
       let origins := lf_origins st2 f1 in
       let refs := map (fun i => i_origin (item_at st2 i)) origins in
@@ -340,7 +368,7 @@ Definition add_channel (hc : bool) (st : bstate) (l : nat) (name : raw) (sn : on
             match cast with
             | Some None => (* a cast_dtype that is not one of the supported dtypes: rejected before registration *)
                 let '(st1, sid) := get_or_make_set st T_CHANNEL sn in
-                (set_lf st1 l (try_add_set f T_CHANNEL sn sid), Rejected EValue)
+                (set_lf st1 l (try_add_set st1 f T_CHANNEL sn sid), Rejected EValue)
             | _ =>
                 let c := match cast with Some (Some c) => Some c | _ => None end in
                 let '(st3, out) := add_common hc st l T_CHANNEL name sn origin_arg default_origin kw (Some dsn) c in
